@@ -117,7 +117,7 @@ func (c *Ctx) ruleS1(rule string) {
 			whole = true
 		}
 	}
-	c.Check(rule, "Statements.Evaluate#forward-over-whole-list", ok && whole && L == x.InnermostLoop(call.Block()), call.Pos(), "each statement of s.StatementList must be evaluated, in order, by a forward range loop")
+	c.Check(rule, "Statements.Evaluate#forward-over-whole-list", ok && whole && L == x.InnermostLoop(call.Block()) && len(x.GuardsOfInLoop(call.Block())) == 0, call.Pos(), "each statement of s.StatementList must be evaluated, in order and unconditionally, by a forward range loop")
 	if L == nil {
 		return
 	}
